@@ -282,6 +282,20 @@ def units_for(chk, F):
             if n.get("k") == "If" and n["cond"].get("k") == "MethodCall" and n["cond"]["name"] == "contains" and \
                     H.expr_str(n["cond"]["recv"]).endswith("registry.base_units") and any(c is outside[0] for c in H.method_calls(n["then"], "push")):
                 registered = True
+    if outside and not (registered and ok_base):
+        # the same two conditions read from the MIR (a match with a guard, other names): the push of the dimension's own name lies
+        # behind `as_single()` being Some, its exponent being 1 and `base_units.contains(name)`
+        raw = F.find(CORE, "runtime::eval::eval_query")
+        for bb, t in raw.calls():
+            if "callee" in t and t["callee"]["path"].endswith("Vec::<T, A>::push") and "as_single" in ap_str(raw.apath(t["args"][1])):
+                gs = [raw.guard_desc(g) for g in raw.guards_of(bb)]
+                if not any(d[0] == "variant" and d[3] == "UnitsFor" for d in gs):
+                    continue
+                one = any(d[0] == "int" and d[2] == 1 and "as_single" in ap_str(d[1]) and d[1][1][-1:] == ("1",) for d in gs) and \
+                    any(d[0] == "variant" and d[3] == "Some" and "as_single" in ap_str(d[1]) for d in gs)
+                reg = any(d[0] == "bool" and d[2] is True and "::contains(" in ap_str(d[1]) and "registry.base_units" in ap_str(d[1]) and "as_single" in ap_str(d[1]) for d in gs)
+                ok_base = ok_base or one
+                registered = registered or reg
     chk.decide(registered or not outside, "units-for-filter", FK, "base-unit-is-registered", where,
                "the dimension's own name is listed only when it is a registered base unit",
                "the name of a one-factor dimensionality is listed without asking whether it is a base unit at all: `units for 'inch'` lists the "
@@ -335,6 +349,12 @@ def category_keys(chk, fn, arm):
             for b in hir_walk(n["pat"]):
                 if b.get("pk") == "bind":
                     bind.setdefault(b["lid"], ("let", n["init"]))
+        if n.get("k") == "Match" and n.get("src") == "Normal":
+            # a name bound by a match arm's pattern comes from the scrutinee (`match val.unit.as_single() { Some((dim, 1)) => ..`)
+            for a_ in n["arms"]:
+                for b in hir_walk(a_["pat"]):
+                    if b.get("pk") == "bind":
+                        bind.setdefault(b["lid"], ("let", n["scrut"]))
         if n.get("k") == "Closure":
             src = None
         if n.get("k") == "Assign" and H.local_name(n["lhs"]):
@@ -375,6 +395,87 @@ def category_keys(chk, fn, arm):
                    "`units for mass` lists kilogram under Uncategorized instead of SI Base Units" % key)
 
 
+def units_for_mir(F):
+    """The listing loop of `units for`, decided on the MIR: {"push": (ok, why), "skip": (ok, why)}.  The listing push is the push
+    inside the loop over registry.units; it lies behind the true edge of the comparison of the value's dimensionality with that
+    unit's, nothing else stands before it but the pure-alias test (`definitions.get(name)` is Some(Expr::Unit)), and without
+    passing that test on its not-an-alias side the push cannot be reached."""
+    import c02
+    fn = F.find(CORE, "runtime::eval::eval_query")
+    pushes = []
+    for bb, t in fn.calls():
+        if "callee" in t and t["callee"]["path"].endswith("Vec::<T, A>::push"):
+            gs = [fn.guard_desc(g) for g in fn.guards_of(bb)]
+            if any(d[0] == "variant" and d[3] == "UnitsFor" and "query::Query" in d[2] for d in gs) and \
+                    any(d[0] == "variant" and d[3] == "Some" and "registry.units" in ap_str(d[1]) and "::next(" in ap_str(d[1]) for d in gs):
+                pushes.append((bb, gs))
+    if len(pushes) != 1:
+        return {"push": (False, "%d pushes inside the loop over registry.units" % len(pushes)), "skip": (False, "-")}
+    pb, gs = pushes[0]
+
+    def alias_test(d):
+        """guard over `registry.definitions.get(<unit name>)`: directly, or a flag set in the arms of a match on it"""
+        txt = ap_str(d[1])
+        if "registry.definitions" in txt and "::get(" in txt:
+            return True
+        ap, _ = k2.peel_not(d[1]) if d[0] == "bool" else (d[1], False)
+        if d[0] == "bool" and ap[0][0] == "local" and not ap[1]:
+            defs_ = fn.defs().get(ap[0][1], [])
+            if defs_ and all(df[0] == "stmt" and df[3].get("k") == "use" and (facts.const_of(df[3]["a"]) or {}).get("ty") == "bool" for df in defs_):
+                # (the `true` side is a match arm over the lookup; the `false` side is reached in two ways - no entry, another kind
+                # of expression - so no single test stands before it)
+                return any(any("registry.definitions" in ap_str(x[1]) and "::get(" in ap_str(x[1]) for x in (fn.guard_desc(g) for g in fn.guards_of(df[1]))) for df in defs_)
+        return False
+
+    eqs, other = [], []
+    for d in gs:
+        if d[0] == "variant" and ("query::Query" in d[2] or (d[3] == "Some" and "registry.units" in ap_str(d[1]))):
+            continue
+        if d[0] == "variant" and "ast::expr::Expr" in d[2] and "arg2" in ap_str(d[1]):
+            continue
+        t = c02.unit_test(k2.peel_not(d[1])[0]) if d[0] == "bool" else None
+        if t and t[0] in ("eq", "ne") and "registry.units" in ap_str(d[1]):
+            if (t[0] == "eq") == (d[2] is True) != k2.peel_not(d[1])[1] or (t[0] == "eq") == (d[2] is True):
+                eqs.append(d)
+            continue
+        if alias_test(d):
+            continue
+        other.append("%s %s" % (d[0], ap_str(d[1])[-70:]))
+    push_ok = len(eqs) >= 1
+    # the alias gate as a cut-set: delete the not-an-alias edges of every test over definitions.get(..)
+    def acc(kind, ap, info):
+        txt = ap_str(ap)
+        if "registry.definitions" in txt and "::get(" in txt:
+            if kind == "variant" and info.get("enum", "").endswith("option::Option"):
+                return {"None"}
+            if kind == "variant" and "ast::expr::Expr" in info.get("enum", ""):
+                return {n for n in info["variants"].values() if n != "Unit"}
+            if kind == "bool":
+                if "is_none(" in txt:
+                    return {"true"}
+                if "is_some(" in txt:
+                    return {"false"}
+        return None
+    res, matched = k2.cut_gate(fn, [pb], acc)
+    gate = bool(matched) and res[pb]
+    if not gate:
+        # a flag computed from the test (`let is_alias = matches!(..)`): the push lies on the flag's `false` side and the flag is
+        # false exactly on the not-an-alias sides
+        for d in gs:
+            ap, flip = k2.peel_not(d[1]) if d[0] == "bool" else (d[1], False)
+            if d[0] == "bool" and ap[0][0] == "local" and alias_test(d):
+                want_false = (d[2] is False) != flip
+                vals = []
+                for df in fn.defs().get(ap[0][1], []):
+                    c = facts.const_of(df[3]["a"])
+                    side = [x for x in (fn.guard_desc(g) for g in fn.guards_of(df[1])) if "registry.definitions" in ap_str(x[1]) and x[0] == "variant"]
+                    is_unit = any(x[3] == "Unit" for x in side) and any(x[3] == "Some" for x in side)
+                    vals.append((bool(c.get("int")), is_unit))
+                gate = want_false and bool(vals) and all(v == u for v, u in vals) and any(v for v, _ in vals)
+    return {"push": (push_ok, "the push is behind %d dimension test(s) of the loop's unit" % len(eqs)),
+            "skip": (gate and not other, "alias gate %s, other tests before the push: %s" % (gate, other or "none"))}
+
+
 def units_for_loop(chk, fn, arm, reg):
     it, pat, body, line, loop = reg
     where = "%s:%d" % (fn.file, line)
@@ -402,6 +503,10 @@ def units_for_loop(chk, fn, arm, reg):
             inner = [c for c in H.method_calls(e["then"], "push") if (H.local_name(c["recv"]) or ("",))[0] == OUT]
             if sides == {"val.unit", "unit.unit"} and len(inner) == 1 and e.get("else") is None:
                 ok_push = True
+    mir = units_for_mir(facts.CURRENT) if not (ok_push and len(pushes) == 1) or not (len(conts) == 1) else None
+    if mir is not None and not (ok_push and len(pushes) == 1):
+        # not the spelling the HIR reading knows (other names, `!is_alias && ..`): the MIR reading decides
+        ok_push = mir["push"][0] and len(pushes) == 1
     chk.decide(ok_push and len(pushes) == 1, "units-for-filter", FK, "push-behind-equal-dimensionality", where,
                "a unit is listed only behind `val.unit == unit.unit`", "the listing push is not (only) behind `val.unit == unit.unit` (%d pushes in the loop)" % len(pushes))
     # the only skip: alias test
@@ -414,6 +519,8 @@ def units_for_loop(chk, fn, arm, reg):
                 init = H.expr_str(e["cond"]["init"])
                 if "Option::Some(&Expr::Unit{" in ptxt and init == "ctx.registry.definitions.get(name)" and [c for c in hir_walk(e["then"]) if c.get("k") == "Continue"]:
                     ok_skip = True
+    if not ok_skip and mir is not None:
+        ok_skip = mir["skip"][0]
     chk.decide(ok_skip, "units-for-filter", FK, "skips-only-pure-aliases", where,
                "the only unit skipped is one whose own definition is a bare unit name (a pure alias); units without a definition are kept",
                "units are skipped for a reason other than `definitions.get(name) == Some(Expr::Unit)` (%d continue/break/return in the loop)" % len(conts))
